@@ -852,8 +852,22 @@ def run_scenario(scenario, broker_factory, seed=0, plan=None, chooser=None, trac
     def join(t, timeout=None):
         deadline = None if timeout is None else sched.now + int(timeout * 1000)
         sched.block(lambda: t.done, deadline, 'join ' + t.name)
+    def quiesce(timeout=5.0):
+        """wait until everything the broker sent has been read and dispatched: all inboxes empty and
+        every reader thread back in its poll"""
+        deadline = sched.now + int(timeout * 1000)
+
+        def idle():
+            if any(so.inbox and not so.closed and so.dead is None for so in sched.sockets):
+                return False
+            for th in sched.threads:
+                if th.kind == 'lib-thread' and th.started and not th.done and th.where not in ('poll', 'select'):
+                    return False
+            return True
+        return sched.block(idle, deadline, 'quiesce')
     ctx.spawn = spawn
     ctx.join = join
+    ctx.quiesce = quiesce
     with Installed(sched, net):
         ctx.main = sched.run(lambda: scenario(ctx), real_timeout=real_timeout)
     ctx.choices = list(chooser.record)
